@@ -43,7 +43,7 @@ fn main() {
         "rng" => suites::rng::drive(&mut t, &tier, seed, false),
         "rngchild" => suites::rng::drive(&mut t, &tier, seed, true),
         "sm2codec" => suites::sm2::drive_codec(&mut t, &tier, seed),
-        "sm2ec" => suites::sm2::drive_ec(&mut t, &tier, seed),
+        "sm2ec" => suites::sm2::drive_ec(&mut t, &tier, seed, plan),
         "sm9hash" => suites::sm9::drive_hash(&mut t, &tier, seed, plan),
         "sm9sig" => suites::sm9::drive_sign(&mut t, &tier, seed, plan),
         "sm9enc" => suites::sm9::drive_encrypt(&mut t, &tier, seed, plan),
